@@ -5,7 +5,7 @@ for k in 1 2 3; do
   if [ -f "$wt/_seed/patch$k.diff" ]; then
     d=/verif/seeded/$id-$n; mkdir -p $d
     cp "$wt/_seed/patch$k.diff" $d/patch.diff; cp "$wt/_seed/demo$k.py" $d/demo.py 2>/dev/null; cp "$wt/_seed/notes$k.md" $d/notes.md 2>/dev/null
-    [ -f $d/meta.json ] || echo '{"round": 2}' > $d/meta.json
+    [ -f $d/meta.json ] || echo "{\"round\": ${ROUND:-2}}" > $d/meta.json
     n=$((n+1))
   fi
 done
